@@ -14,6 +14,7 @@ let () =
                (match m with
                 | "codec" -> M_codec.handle cmd args
                 | "server" -> M_server.handle cmd args
+                | "paths" -> M_paths.handle cmd args
                 | _ -> failwith ("unknown module " ^ m))
              | _ -> failwith "bad line"
            with
